@@ -10,7 +10,9 @@ package ttlv
 import (
 	"encoding/json"
 	"encoding/xml"
+	"math/big"
 	"strings"
+	"time"
 )
 
 var c18TypeNames = []string{"", "Structure", "Integer", "LongInteger", "BigInteger", "Enumeration", "Boolean", "TextString", "ByteString", "DateTime", "Interval"}
@@ -86,7 +88,43 @@ func VerifC02_Json(top, typeIdx, typeLen, tagKind, vKind, vLen int) {
 	d := newDecoder(r)
 	var v Value
 	_ = d.Any(&v) // a panic escaping is the violation; errors are fine
+	// the same item into the typed Go target of its type (the typed decoders use
+	// what the reader hands back without the generic container in between)
+	r2 := &jsonReader{value: []any{topv}}
+	d2 := newDecoder(r2)
+	c02TypedTarget(&d2, typeIdx)
 	verifReach("returned")
+}
+
+func c02TypedTarget(d *Decoder, typeIdx int) {
+	switch typeIdx {
+	case 2:
+		var x int32
+		_ = d.TagAny(c04Tag, &x)
+	case 3:
+		var x int64
+		_ = d.TagAny(c04Tag, &x)
+	case 4:
+		var x big.Int
+		_ = d.TagAny(c04Tag, &x)
+		var y *big.Int
+		_ = d.TagAny(c04Tag, &y)
+	case 6:
+		var x bool
+		_ = d.TagAny(c04Tag, &x)
+	case 7:
+		var x string
+		_ = d.TagAny(c04Tag, &x)
+	case 8:
+		var x []byte
+		_ = d.TagAny(c04Tag, &x)
+	case 9:
+		var x time.Time
+		_ = d.TagAny(c04Tag, &x)
+	case 10:
+		var x time.Duration
+		_ = d.TagAny(c04Tag, &x)
+	}
 }
 
 // VerifC02_Xml: an arbitrary start element.
@@ -120,6 +158,10 @@ func VerifC02_Xml(nameKind, typeIdx, typeLen, vLen, extra int) {
 	d := newDecoder(r)
 	var v Value
 	_ = d.Any(&v)
+	el2 := el
+	r2 := &xmlReader{r: c18NoMoreXML(), elem: &el2}
+	d2 := newDecoder(r2)
+	c02TypedTarget(&d2, typeIdx)
 	verifReach("returned")
 }
 
@@ -513,4 +555,26 @@ func VerifC18_EnumItem(src, vKind, vLen, form, enc int) {
 	}
 	verifReach("accepted")
 	c18FixedPoint(v, enc)
+}
+
+// VerifC18_TagItem: an Integer item with an arbitrary unregistered tag of the
+// upper half of the 24-bit range (written in the "0x" fallback form) forwarded
+// through encoding enc reaches a fixed point with the same tag.
+func VerifC18_TagItem(enc int) {
+	t := verifNondetInt("tag")
+	verifAssume(t >= 0x800000 && t <= 0xFFFFFF)
+	verifConfig("real-names")
+	v := Value{Tag: t, Value: verifNondetInt32("v")}
+	e1, w, ok := c18Reencode(v, enc)
+	verifAssert("re-encoded item is well-formed and accepted", ok)
+	if !ok {
+		return
+	}
+	verifAssert("same tag after the hop", w.Tag == t)
+	verifAssert("same value after the hop", valueEq(v, w))
+	e2, _, ok2 := c18Reencode(w, enc)
+	verifAssert("second hop accepted", ok2)
+	if ok2 {
+		verifAssert("second re-encoding is byte-identical", verifBytesEq(e1, e2))
+	}
 }
